@@ -9,7 +9,7 @@ for f in sorted(glob.glob(os.path.join(os.path.dirname(os.path.abspath(__file__)
     needs = re.sub(r"\s+", " ", m.get("needs", ""))[:150]
     fin = m.get("final", {})
     first = re.sub(r"\s+", " ", str(m.get("result", "")))
-    missed_first = ("MISSED" in first) or ("missed" in first.lower()) or ("first_round" in m) or ("strengthening" in m)
+    missed_first = ("missed" in first.lower()) or any(k.startswith("first") or k in ("strengthening", "added", "what_was_added", "checks_run_after_strengthening") for k in m)
     if fin.get("caught_by"):
         what = "; ".join(w for v in fin["checks"].values() for w in v.get("what", [])[:1])
         res = "caught by `./check %s`: %s" % (", ".join(fin["caught_by"]), re.sub(r"\s+", " ", what)[:170])
